@@ -471,7 +471,10 @@ pub fn edge_sig(view: &View, world: &World, ops: &HashMap<u32, Op>, t: &DlThread
 /// an edge that follows the crate's documented lock order (parent before child; element before model) is not a defect by itself
 pub fn edge_conforms(edge: &str) -> bool {
     let Some((_, rest)) = edge.split_once(": ") else { return false };
-    rest.split(" & ").all(|p| p.ends_with("[down]") || (p.starts_with("Element-") && p.contains("-> Model-")) || p.ends_with("[to-new]"))
+    // locks of elements that are not (yet) part of a model cannot be contended by another client
+    rest.split(" & ").all(|p| {
+        p.ends_with("[down]") || (p.starts_with("Element-") && p.contains("-> Model-")) || p.ends_with("[to-new]") || p.ends_with("[from-new]") || p.ends_with("[new-new]")
+    })
 }
 
 pub fn deadlock_sig(view: &View, world: &World, sc: &Scenario, f: &Finding) -> Option<(String, String)> {
